@@ -14,7 +14,7 @@ from ..core import Tally, maxdiff
 from .. import sensorworld as SW
 
 SCALES_Q = [(1.0, 1.0), (9.81, 48.3), (1e-4, 4.83e-5), (1.000004, 0.999997), (9.81, 4.83e-9)]          # unit vectors; m/s^2 and uT; a small acceleration unit with the field in tesla
-SCALES_T = [(1.0, 1.0), (9.81, 48.3), (1e-4, 4.83e-5), (1.000004, 0.999997), (0.99999, 1.00001), (1.0, 1000.0), (1000.0, 1.0), (3e-3, 7e2), (1e-5, 1e-5), (9.81e6, 4.83e8)]
+SCALES_T = [(1.0, 1.0), (9.81, 48.3), (1e-4, 4.83e-5), (1.000004, 0.999997), (9.81, 4.83e-9), (9.81e-9, 48.3), (0.99999, 1.00001), (1.0, 1000.0), (1000.0, 1.0), (3e-3, 7e2), (1e-5, 1e-5), (9.81e6, 4.83e8)]
 
 
 def classify(rec):
